@@ -162,6 +162,7 @@ static void body(bsx::Ctx& c) {
 	int arch = c.choose(4, "archive");
 	int di = c.choose(static_cast<int>(D.size()), "doc");
 	const Doc& d = D[static_cast<size_t>(di)];
+	sv::keyMode() = c.choose(2, "keys_as");   // 0: std::string keys straight into Serialize(); 1: C strings through KeyValue, as applications write them
 	int embed = c.choose(2, "embed");          // 0: [pad?, obj, sentinel]   1: {p?: pad, o: obj, zz: sentinel}
 	// sources: 0 = memory, 1.. = stream with padding index
 	std::vector<int> pads;
@@ -218,7 +219,7 @@ static void body(bsx::Ctx& c) {
 	for (int i = 0; i < len; ++i) { int r = c.choose(static_cast<int>(al.size()), "request"); sn->script.push_back(al[static_cast<size_t>(r)]); if (firstPartial < 0 && partialRead(al[static_cast<size_t>(r)])) firstPartial = i; hist += (i ? "," : "") + reqName(al[static_cast<size_t>(r)]); cls += (i ? "," : "") + reqClass(al[static_cast<size_t>(r)]); }
 
 	std::string bytes = tl::emit(arch, root);
-	std::string cfg = std::string("C03/") + archName(arch) + (stream ? "/stream" : "/mem") + "/chunk=" + std::to_string(kChunk) + (embed ? "/in=object" : "/in=array") + "/doc=" + d.name;
+	std::string cfg = std::string("C03/") + archName(arch) + (stream ? "/stream" : "/mem") + "/chunk=" + std::to_string(kChunk) + (embed ? "/in=object" : "/in=array") + (sv::keyMode() ? "/keys=cstr" : "") + "/doc=" + d.name;
 	gCfgSalt = bsx::fnv(cfg + "/pad=" + std::to_string(pad));
 	std::string sigbase = cfg + "/hist=" + cls;
 	c.describe(sigbase, "pad=" + std::to_string(pad) + " history=[" + hist + "] doc=" + (bytes.size() < 200 ? (arch == tl::MsgPack ? bsx::hex(bytes) : bytes) : "(long)"));
